@@ -90,6 +90,12 @@ impl OpenOptions {
         let o = self.clone();
         sim::with(|w| {
             w.log("fs_open", 0, 0, p.display().to_string());
+            // file operations run on the blocking pool, which a runtime that is shutting down no longer serves: an open
+            // issued by a task that is still being polled then fails ("background task failed")
+            if crate::shutting_down() && w.sched_rng.chance(500) {
+                w.count("fs_open_during_shutdown_failed");
+                return Err(io::Error::new(io::ErrorKind::Other, "background task failed"));
+            }
             // a path whose parent is a regular file, or an empty path, cannot be opened
             if p.as_os_str().is_empty() {
                 return Err(io::Error::from_raw_os_error(libc::ENOENT));
